@@ -375,14 +375,15 @@ class ThreadPoolServer(Server):
             # the connection has already been unregistered
             pass
 
-    def _drop_connection(self, fd):
+    def _drop_connection(self, fd, conn=None):
         '''removes a connection by closing it and removing it from internal structs'''
-        conn = None
-
         # cleanup fd_to_conn dictionnary
         try:
-            conn = self.fd_to_conn[fd]
-            del self.fd_to_conn[fd]
+            # a connection that failed has closed itself already: the descriptor number may meanwhile
+            # belong to a newly accepted client, whose entry must stay
+            if conn is None or self.fd_to_conn[fd] is conn:
+                conn = self.fd_to_conn[fd]
+                del self.fd_to_conn[fd]
         except KeyError:
             # the active connection has already been removed
             pass
@@ -434,14 +435,16 @@ class ThreadPoolServer(Server):
         '''Serves requests from the given connection and puts it back to the appropriate queue'''
         # serve a maximum of RequestBatchSize requests for this connection
         for _ in range(self.request_batch_size):
+            conn = None
             try:
-                if not self.fd_to_conn[fd].poll():  # note that poll serves the request
+                conn = self.fd_to_conn[fd]
+                if not conn.poll():  # note that poll serves the request
                     # we could not find a request, so we put this connection back to the inactive set
                     self._add_inactive_connection(fd)
                     return
             except EOFError:
                 # the connection has been closed by the remote end. Close it on our side and return
-                self._drop_connection(fd)
+                self._drop_connection(fd, conn)
                 return
             except Exception:
                 # put back the connection to active queue in doubt and raise the exception to the upper level
